@@ -734,6 +734,7 @@ func (ctx *Context) evaluate() {
 			if ctx.Error != nil {
 				return
 			}
+			stackPush(val) // 与普通赋值一样，赋值表达式的值是所赋的值
 		case typeAttrSet:
 			attrVal, obj := stackPop2()
 			attrName := code.Value.(string)
@@ -745,6 +746,7 @@ func (ctx *Context) evaluate() {
 			if ctx.Error != nil {
 				return
 			}
+			stackPush(attrVal) // 与普通赋值一样，赋值表达式的值是所赋的值
 		case typeAttrGet:
 			obj := stackPop()
 			attrName := code.Value.(string)
@@ -785,6 +787,7 @@ func (ctx *Context) evaluate() {
 			if ctx.Error != nil {
 				return
 			}
+			stackPush(val) // 与普通赋值一样，赋值表达式的值是所赋的值
 
 		case typeReturn:
 			solveDetail()
